@@ -108,6 +108,17 @@ proof fn lemma_nz_id(s: Seq<u32>)
     if s.len() > 0 { lemma_nz_id(s.drop_last()); assert(s.drop_last().push(s.last()) =~= s); }
 }
 
+spec fn seq_set(s: Seq<u32>) -> Set<u32> { Set::new(|c: u32| s.contains(c)) }
+proof fn lemma_seq_set_push(s: Seq<u32>, c: u32) ensures seq_set(s.push(c)) == seq_set(s).insert(c) {
+    let t = s.push(c);
+    assert forall|x: u32| seq_set(t).contains(x) <==> (seq_set(s).contains(x) || x == c) by {
+        if s.contains(x) { let j = choose|j: int| 0 <= j < s.len() && s[j] == x; assert(t[j] == x); }
+        if t.contains(x) { let j = choose|j: int| 0 <= j < t.len() && t[j] == x; if j < s.len() { assert(s[j] == x); } }
+        assert(t[s.len() as int] == c);
+    }
+    assert(seq_set(t) =~= seq_set(s).insert(c));
+}
+
 // =====================================================================================================================
 // error / io shims
 // =====================================================================================================================
@@ -291,16 +302,14 @@ impl Container {
 
     fn new(lg_size: usize) -> (r: Self)
       requires /*@C14.coupons.lg_size_range*/ lg_size <= 18
-      ensures r.wf(), r.lg_size == lg_size, r.len == 0, r.cset() =~= Set::<u32>::empty(), forall|i: int| 0 <= i < r.coupons@.len() ==> r.coupons@[i] == 0
+      ensures r.wf_lg(), r.wf_capacity(), r.lg_size == lg_size, r.len == 0, forall|i: int| 0 <= i < r.coupons@.len() ==> r.coupons@[i] == 0
     {
         proof { lemma_shl_us(lg_size); }
-        let r = Self {
+        Self {
             lg_size,
             coupons: vx_vec_u32(COUPON_EMPTY, 1 << lg_size).into_boxed_slice(),
             len: 0,
-        };
-        proof { lemma_nz_all_zero(r.coupons@); }
-        r
+        }
     }
 
     fn from_coupons(lg_size: usize, coupons: Box<[u32]>, len: usize) -> (r: Self)
@@ -326,6 +335,12 @@ impl Container {
     }
 }
 
+proof fn lemma_shl_small(l: usize)
+  requires l < 64, (1usize << l) <= 0x4_0000
+  ensures l <= 18
+{
+    assert(l < 64 && (1usize << l) <= 0x4_0000 ==> l <= 18) by (bit_vector);
+}
 proof fn lemma_shl_us(l: usize)
   requires l <= 26
   ensures (1usize << l) == pow2(l as nat), pow2(l as nat) <= 0x400_0000, l <= 18 ==> pow2(l as nat) <= 0x4_0000
@@ -347,7 +362,7 @@ struct List {
 impl List {
     fn new(lg_size: usize) -> (r: Self)
       requires lg_size <= 18
-      ensures r.container.wf(), r.container.lg_size == lg_size, r.container.len == 0
+      ensures r.container.wf_lg(), r.container.wf_capacity(), r.container.lg_size == lg_size, r.container.len == 0, forall|i: int| 0 <= i < r.container.coupons@.len() ==> r.container.coupons@[i] == 0
     {
         Self {
             container: Container::new(lg_size),
@@ -457,10 +472,13 @@ impl List {
             let mut write_idx = 0;
             let mut vx_i1 = 0;
             while vx_i1 < self.container.coupons.len()
+              invariant_except_break
+                write_idx < array_size,
               invariant
                 vx_i1 <= all.len(), all == self.container.coupons@, array_size == nz(all).len(), array_size > 0, compact,
-                write_idx == nz(all.take(vx_i1 as int)).len(), write_idx < array_size,
+                write_idx == nz(all.take(vx_i1 as int)).len(),
                 bytes@ == hdr + enc_u32s(nz(all.take(vx_i1 as int))),
+                write_idx >= array_size || vx_i1 == all.len() ==> nz(all.take(vx_i1 as int)) == nz(all),
               ensures
                 bytes@ == hdr + enc_u32s(nz(all)),
               decreases all.len() - vx_i1
@@ -473,6 +491,7 @@ impl List {
                     lemma_enc_u32s_push(nz(all.take(vx_i1 as int - 1)), coupon);
                     lemma_nz_take_le(all, vx_i1 as int);
                     if vx_i1 == all.len() { assert(all.take(vx_i1 as int) =~= all); }
+                    if coupon != 0 && write_idx + 1 >= array_size { lemma_nz_prefix_full(all, vx_i1 as int); }
                 }
                 if compact && coupon == 0 {
                     continue; // Skip empty coupons in compact mode
@@ -481,7 +500,6 @@ impl List {
                 write_idx += 1;
                 proof {
                     assert(hdr + enc_u32s(nz(all.take(vx_i1 as int - 1))) + le32_bytes(coupon) =~= hdr + (enc_u32s(nz(all.take(vx_i1 as int - 1))) + le32_bytes(coupon)));
-                    if write_idx >= array_size { lemma_nz_prefix_full(all, vx_i1 as int); }
                 }
                 if write_idx >= array_size {
                     break;
@@ -511,7 +529,7 @@ impl HashSet {
 
     fn new(lg_size: usize) -> (r: Self)
       requires /*@C14.set.lg_arr_range*/ lg_size <= 18
-      ensures r.container.wf(), r.container.lg_size == lg_size, r.container.len == 0, r.container.cset() =~= Set::<u32>::empty()
+      ensures r.container.wf_lg(), r.container.wf_capacity(), r.container.lg_size == lg_size, r.container.len == 0, forall|i: int| 0 <= i < r.container.coupons@.len() ==> r.container.coupons@[i] == 0
     {
         Self {
             container: Container::new(lg_size),
@@ -521,9 +539,11 @@ impl HashSet {
     // by contract (the probe loop is verified against this view in the HLL table unit): insert into the set view; needs an empty slot
     #[verifier::external_body]
     fn update(&mut self, coupon: u32)
-      requires old(self).container.wf(), /*@C14.set.table_full*/ old(self).has_room(),
+      requires old(self).container.wf_lg(), old(self).container.wf_capacity(), /*@C14.set.table_full*/ old(self).has_room(),
       ensures final(self).container.wf_lg(), final(self).container.wf_capacity(), final(self).container.lg_size == old(self).container.lg_size,
-        coupon != 0 ==> final(self).container.wf_len() && final(self).container.cset() == old(self).container.cset().insert(coupon),
+        final(self).container.len <= old(self).container.len + 1,
+        coupon != 0 ==> final(self).container.cset() == old(self).container.cset().insert(coupon),
+        coupon != 0 && old(self).container.wf_len() ==> final(self).container.wf_len(),
         coupon != 0 ==> final(self).container.len == old(self).container.len + (if old(self).container.cset().contains(coupon) { 0int } else { 1int }),
         // COUPON_EMPTY itself: the first empty slot "receives" it and len is incremented although nothing is stored
         coupon == 0 ==> final(self).container.coupons@ == old(self).container.coupons@ && final(self).container.len == old(self).container.len + 1,
@@ -539,7 +559,7 @@ impl HashSet {
         /*@C13.set.lg_arr*/ r matches Ok(a) ==> a.container.lg_size == lg_arr,
         /*@C13.set.compact.coupons*/ r matches Ok(a) ==> compact ==> cursor.rem().len() >= 4 && ({
             let n = le32_val(cursor.rem().take(4)) as int; let p = cursor.rem().skip(4);
-            p.len() >= 4 * n && ((forall|j: int| 0 <= j < n ==> dec_u32_at(p, j) != 0) ==> a.container.cset() == dec_u32s(p, n).to_set() && a.container.wf_len()) }),
+            p.len() >= 4 * n && ((forall|j: int| 0 <= j < n ==> dec_u32_at(p, j) != 0) ==> a.container.cset() == seq_set(dec_u32s(p, n)) && a.container.wf_len()) }),
         /*@C13.set.table.coupons*/ r matches Ok(a) ==> !compact ==> cursor.rem().len() >= 4 && a.container.len == le32_val(cursor.rem().take(4))
               && a.container.coupons@ == dec_u32s(cursor.rem().skip(4), pow2(lg_arr as nat) as int),
         /*@C14.set.rejects_truncated*/ cursor.rem().len() < 4 ==> r is Err,
@@ -560,11 +580,16 @@ impl HashSet {
             // Compact mode: only couponCount coupons are stored
             // Create a new hash set and insert coupons one by one
             let mut hash_set = HashSet::new(lg_arr);
+            proof {
+                lemma_nz_all_zero(hash_set.container.coupons@);
+                assert(hash_set.container.cset() =~= Set::<u32>::empty());
+                assert(seq_set(dec_u32s(p0, 0)) =~= Set::<u32>::empty());
+            }
             for i in 0..coupon_count
               invariant
                 hash_set.container.wf_lg(), hash_set.container.wf_capacity(), hash_set.container.lg_size == lg_arr,
                 p0.len() >= 4 * i, cursor.rem() == p0.skip(4 * i), p0 == p00.skip(4),
-                (forall|j: int| 0 <= j < i ==> dec_u32_at(p0, j) != 0) ==> hash_set.container.wf_len() && hash_set.container.cset() == dec_u32s(p0, i as int).to_set(),
+                (forall|j: int| 0 <= j < i ==> dec_u32_at(p0, j) != 0) ==> hash_set.container.wf_len() && hash_set.container.cset() == seq_set(dec_u32s(p0, i as int)),
                 hash_set.container.len <= i,
             {
                 proof { assert(p0.skip(4 * i).take(4) =~= p0.subrange(4 * i, 4 * i + 4)); assert(p0.skip(4 * i).skip(4) =~= p0.skip(4 * (i + 1))); }
@@ -572,8 +597,7 @@ impl HashSet {
                 proof {
                     assert(coupon == dec_u32_at(p0, i as int));
                     assert(dec_u32s(p0, i as int + 1) =~= dec_u32s(p0, i as int).push(coupon));
-                    vstd::seq_lib::seq_to_set_is_finite(dec_u32s(p0, i as int));
-                    dec_u32s(p0, i as int).lemma_push_to_set_commute(coupon);
+                    lemma_seq_set_push(dec_u32s(p0, i as int), coupon);
                 }
                 hash_set.update(coupon);
             }
